@@ -507,16 +507,16 @@ def register(pid, run, **kw):
     ROUTINES[pid] = dict(run=run, **kw)
 
 
-register("C01", wf_routine(STRUCT, [("struct", 300, 20000), ("plain", 100, 2000)],
+register("C01", wf_routine(STRUCT, [("struct", 300, 20000), ("plain", 100, 2000), ("large", 6, 150)],
          "corpus files + type-directed generated well-formed programs (all attribute ranges); "
          "distinct = distinct structure observations of loaded sprites",
          spec_backed="C01.decode_encode / loaded_layers / loaded_slices / loaded_tags / sprite_frameTimes and the per-chunk round trips",
          big=("frames",)))
-register("C02", wf_routine(RENDER, [("render", 300, 10000), ("struct", 100, 2000)],
+register("C02", wf_routine(RENDER, [("render", 300, 10000), ("struct", 100, 2000), ("large", 6, 100)],
          "generated layer stacks (19 blend modes, opacities, hidden layers/groups, linked, tilemap, "
          "off-canvas cels); distinct = distinct frame-image observations",
          spec_backed="C02.frameImage_spec (point-wise composition) with C03.blend_eq_ref", big=("layers",), extra=order_extra))
-register("C06", wf_routine(CELS, [("rgba", 120, 3000), ("gray", 120, 3000), ("indexed", 160, 4000)],
+register("C06", wf_routine(CELS, [("rgba", 120, 3000), ("gray", 120, 3000), ("indexed", 160, 4000), ("large", 6, 100)],
          "generated sprites in each pixel format (sparse palettes, alpha<255, all transparent-index "
          "values, background flag, raw and zlib, links); distinct = distinct cel observations",
          spec_backed="C06.celImage_spec / indexed_conversion / linked_cel_eq_target / absent_cel"))
@@ -542,7 +542,7 @@ def c19_extra(ctx, scale, res, files, model_obs, impl_obs):
     res.distribution["many-layer sprites"] = 1
 
 
-register("C19", wf_routine(CELS + RENDER + ["tilemap"], [("render", 200, 5000), ("tiles", 100, 3000)],
+register("C19", wf_routine(CELS + RENDER + ["tilemap"], [("render", 200, 5000), ("tiles", 100, 3000), ("large", 4, 60)],
          "generated sprites with frames != layers; the three cel routes, single-layer frames, tilemap images",
          spec_backed="the model's single cel function of (frame, layer) + C19.single_layer_frame_eq_cel / tilemap_view_cel",
          extra=c19_extra, big=("layers",)))
